@@ -12,4 +12,4 @@ done
 git -C /repo checkout -- . && git -C /repo clean -fdq
 cp "$save"/*.json /verif/evidence/ 2>/dev/null; rm -rf "$save"   # evidence of runs on a seeded tree is not kept
 # regenerate Gen for the clean tree so later builds are not confused
-(cd /verif && for t in gen_tables gen_limbs gen_asm gen_pins gen_effects; do [ -x .build/$t ] && .build/$t /repo lean/I3/Gen >/dev/null 2>&1; done; true)
+(cd /verif && for t in gen_tables gen_limbs gen_asm gen_pins gen_effects gen_go; do [ -x .build/$t ] && .build/$t /repo lean/I3/Gen >/dev/null 2>&1; done; true)
